@@ -99,41 +99,50 @@ fn proposal(dep: u64, b: u8) -> VotingProposal {
     VotingProposal::new(&GovernanceAction::new_info_action(&InfoAction::new()), &anchor, &RewardAddress::new(0, &ccred(b)), &BigNum::from(dep))
 }
 
-/// draws: key, pool, n, (shape, coin)*n, nwd, wd*nwd, nprop, prop*nprop
+/// draws: key, pool, n, (shape, coin)*n, nwd, wd*nwd, nprop, prop*nprop.  The certificate list is evaluated twice: with a
+/// different credential per certificate, and with ONE credential shared by all of them (refunds and deposits are per certificate)
 pub fn c20_tables<S: Src>(s: &mut S) {
     let (key, pool) = (s.u64(), s.u64());
     let n = s.u8();
     s.assume(n <= 4);
+    let mut draws: Vec<(u8, u64)> = Vec::new();
+    for _ in 0..n { let sh = s.u8(); s.assume(sh <= 18); let coin = s.u64(); draws.push((sh, coin)); }
+    let nwd = s.u8();
+    s.assume(nwd <= 3);
+    let wdraws: Vec<u64> = (0..nwd).map(|_| s.u64()).collect();
+    let nprop = s.u8();
+    s.assume(nprop <= 2);
+    let pdraws: Vec<u64> = (0..nprop).map(|_| s.u64()).collect();
+    for shared in [false, true] { c20_tables_eval(key, pool, &draws, &wdraws, &pdraws, shared); }
+}
+
+fn c20_tables_eval(key: u64, pool: u64, draws: &[(u8, u64)], wdraws: &[u64], pdraws: &[u64], shared: bool) {
+    let (nwd, nprop) = (wdraws.len() as u8, pdraws.len() as u8);
     let mut certs = Certificates::new();
     let mut cb = CertificatesBuilder::new();
     let (mut dep, mut refund) = (0u128, 0u128);
-    for j in 0..n {
-        let sh = s.u8();
-        s.assume(sh <= 18);
-        let coin = s.u64();
-        let (c, d, r) = c20_cert(sh, coin, key, pool, 10 + j);
-        certs.add(&c);
-        cb.add(&c).unwrap();
+    for (j, (sh, coin)) in draws.iter().enumerate() {
+        let (c, d, r) = c20_cert(*sh, *coin, key, pool, if shared { 10 } else { 10 + j as u8 });
+        if !certs.add(&c) { continue; }            // the same certificate twice is one certificate (set semantics)
+        if cb.add(&c).is_err() { return; }
         dep += d; refund += r;
     }
-    let nwd = s.u8();
-    s.assume(nwd <= 3);
     let mut wds = Withdrawals::new();
     let mut wb = WithdrawalsBuilder::new();
     let mut wd_sum = 0u128;
-    for j in 0..nwd {
-        let w = s.u64();
+    for (j, w) in wdraws.iter().enumerate() {
+        let w = *w;
+        let j = j as u8;
         wds.insert(&RewardAddress::new(0, &ccred(100 + j)), &BigNum::from(w));
         wb.add(&RewardAddress::new(0, &ccred(100 + j)), &BigNum::from(w)).unwrap();
         wd_sum += w as u128;
     }
-    let nprop = s.u8();
-    s.assume(nprop <= 2);
     let mut props = VotingProposals::new();
     let mut pb = VotingProposalBuilder::new();
     let mut prop_sum = 0u128;
-    for j in 0..nprop {
-        let d = s.u64();
+    for (j, d) in pdraws.iter().enumerate() {
+        let d = *d;
+        let j = j as u8;
         props.add(&proposal(d, 50 + j));
         pb.add(&proposal(d, 50 + j)).unwrap();
         prop_sum += d as u128;
